@@ -117,14 +117,33 @@ def run(C, R):
                        {'trace': trace_summary(path)})
         # R3
         tw = F.one_fn(impl_adt=STATE, name='try_wait')
-        paths = E.run(tw['path'])
+        from common import own_node_roots as _onr
+        _own = _onr(F, tw)
+        root = (list(_own) or [(('P', 'wait_node'),)])[0]
+        _nd = C.roles(cfg).node_data.get(_own.get(root) or '', {})
+        # judged per entry state of the own node, whatever way the code tells the states apart (a `match` with one arm
+        # per state, or early returns that treat two states alike): the entry state is assumed, one state at a time
+        paths = []
+        if _nd.get('state_enum') and _nd.get('state_field'):
+            if getattr(F, 'entry_ctx', None) is None:
+                F.entry_ctx = {}
+            saved_ctx = F.entry_ctx.get(tw['path'])
+            try:
+                for v_ in E.variants_of(_nd['state_enum']):
+                    F.entry_ctx[tw['path']] = {root[0][1]: (_nd['state_field'], _nd['state_enum'], frozenset([v_]))}
+                    paths += E.run(tw['path'])
+            finally:
+                if saved_ctx is None:
+                    F.entry_ctx.pop(tw['path'], None)
+                else:
+                    F.entry_ctx[tw['path']] = saved_ctx
+        else:
+            paths = E.run(tw['path'])
         R.add_paths(tw['path'], len(paths))
         seen = set()
         for path in paths:
             if path.exit != 'return':
                 continue
-            from common import own_node_roots as _onr
-            root = (list(_onr(F, tw)) or [(('P', 'wait_node'),)])[0]
             k0 = path.facts.get(('discr', ('init', root + ('data', 'state'))))
             s0 = k0[1] if k0 and k0[0] == 'eq' else None
             pv = poll_variant(E, path)
